@@ -680,7 +680,7 @@ fn do_swap(s: &mut Pool3, ctx: &mut Ctx, actor: usize, from: usize, to: usize, a
         ctx.fail("C04", "fee_exact", "fee_ne_floor_share_gross", None, format!("gross {gross}: fees {:?} expected {:?}", [prot, swapf, burn], f));
     }
     // C04: gross within the slope box of the independent curve at the documented amplification
-    if before.reserves.iter().all(|v| *v >= 10_000) && amount >= 1 {
+    if ctx.on("C04") && before.reserves.iter().all(|v| *v >= 10_000) && amount >= 1 {
         let x_new = before.reserves[from].saturating_add(amount);
         let mut ok_any = false;
         let mut detail = String::new();
@@ -720,7 +720,7 @@ fn do_swap(s: &mut Pool3, ctx: &mut Ctx, actor: usize, from: usize, to: usize, a
         ctx.probe("trio_swap_curve_checked");
     }
     // C04: D per LP monotone for swaps (2 base units of slack on the ask side)
-    if before.share > 0 && before.reserves.iter().all(|v| *v >= 10_000) {
+    if ctx.on("C04") && before.share > 0 && before.reserves.iter().all(|v| *v >= 10_000) {
         let (ok, db, da) = d_per_lp_ok2(amp, &before, &after, Some((to, 2)), 2);
         if !ok {
             let allow = imbalance_dust(&before.reserves, to);
@@ -766,7 +766,7 @@ fn do_provide(s: &mut Pool3, ctx: &mut Ctx, actor: usize, amounts: [u128; 3], sl
             if after.lp_pool < 1000 {
                 ctx.fail("C04", "min_liquidity_locked", "first_deposit", None, format!("first deposit locked {}", after.lp_pool));
             }
-        } else if before.reserves.iter().all(|v| *v >= 10_000) {
+        } else if ctx.on("C04") && before.reserves.iter().all(|v| *v >= 10_000) {
             let (okd, db, da) = d_per_lp_ok(amp, &before, &after, None);
             if !okd {
                 // D15: recognise the solver-termination dust exactly
@@ -824,7 +824,7 @@ fn do_withdraw(s: &mut Pool3, ctx: &mut Ctx, actor: usize, lp: u128, fault: Faul
         if before.share.saturating_sub(after.share) != lp {
             ctx.fail("C04", "withdraw_burns_lp", opname, None, format!("supply {} -> {} for {lp}", before.share, after.share));
         }
-        if after.share > 0 && before.reserves.iter().all(|v| *v >= 10_000) && after.reserves.iter().all(|v| *v >= 1) {
+        if ctx.on("C04") && after.share > 0 && before.reserves.iter().all(|v| *v >= 10_000) && after.reserves.iter().all(|v| *v >= 1) {
             let (okd, db, da) = d_per_lp_ok(amp, &before, &after, None);
             if !okd {
                 ctx.fail("C04", "d_per_lp_monotone", "withdraw", None, format!("withdraw {lp}: exact D {db} -> {da}, S {} -> {}", before.share, after.share));
